@@ -196,6 +196,19 @@ pub broadcast axiom fn axiom_string_obeys_cmp()
 pub uninterp spec fn upper(s: Seq<char>) -> Seq<char>;
 pub assume_specification[ str::to_uppercase ](s: &str) -> (r: String)
     ensures r@ == upper(s@);
+// other case conversions and trimming: uninterpreted functions of the text, DIFFERENT from `upper` (a helper that upper-cases
+// with to_ascii_uppercase does not name the constant that to_uppercase defined) and NOT the identity (a contract that needs the
+// original text fails when the text was trimmed first)
+pub uninterp spec fn lower(s: Seq<char>) -> Seq<char>;
+pub uninterp spec fn ascii_upper(s: Seq<char>) -> Seq<char>;
+pub uninterp spec fn ascii_lower(s: Seq<char>) -> Seq<char>;
+pub uninterp spec fn trimmed(s: Seq<char>, side: int) -> Seq<char>;
+pub assume_specification[ str::to_lowercase ](s: &str) -> (r: String) ensures r@ == lower(s@);
+pub assume_specification[ str::to_ascii_uppercase ](s: &str) -> (r: String) ensures r@ == ascii_upper(s@);
+pub assume_specification[ str::to_ascii_lowercase ](s: &str) -> (r: String) ensures r@ == ascii_lower(s@);
+pub assume_specification[ str::trim ](s: &str) -> (r: &str) ensures r@ == trimmed(s@, 0);
+pub assume_specification[ str::trim_start ](s: &str) -> (r: &str) ensures r@ == trimmed(s@, 1);
+pub assume_specification[ str::trim_end ](s: &str) -> (r: &str) ensures r@ == trimmed(s@, 2);
 // case::CaseExt::to_snake (the `case` crate): likewise an uninterpreted function of the text
 pub uninterp spec fn snake(s: Seq<char>) -> Seq<char>;
 pub assume_specification[ <str as case::CaseExt>::to_snake ](s: &str) -> (r: String)
